@@ -382,8 +382,34 @@ type sim struct {
 	pending int // kernel steps since last delivery
 }
 
-func newSim(ctx context.Context, n int, in chan tmelink.NetworkViewUpdate, stratEnd <-chan struct{}) *sim {
+// powerProfiles: 0 keeps the fixture's nearly equal powers; 1 gives validators 0 and 1
+// 40 % each (the two of them exceed 2/3, so rounds die on two signatures); 2 gives
+// validator 0 half of the power.
+const nPowerProfiles = 3
+
+func newSim(ctx context.Context, n int, profile int, in chan tmelink.NetworkViewUpdate, stratEnd <-chan struct{}) *sim {
 	fx := tmconsensustest.NewEd25519Fixture(n)
+	switch profile {
+	case 1:
+		for i := range fx.PrivVals {
+			fx.PrivVals[i].Val.Power = uint64(100 + i)
+		}
+		rest := uint64(0)
+		for i := 2; i < n; i++ {
+			rest += fx.PrivVals[i].Val.Power
+		}
+		fx.PrivVals[0].Val.Power = 2*rest + 1
+		fx.PrivVals[1].Val.Power = 2 * rest
+	case 2:
+		rest := uint64(0)
+		for i := range fx.PrivVals {
+			fx.PrivVals[i].Val.Power = uint64(100 + i)
+			if i > 0 {
+				rest += uint64(100 + i)
+			}
+		}
+		fx.PrivVals[0].Val.Power = rest
+	}
 	_ = fx.DefaultGenesis()
 	s := &sim{ctx: ctx, fx: fx, n: n, vals: fx.Vals(), valSet: fx.ValSet(), in: in, stratEnd: stratEnd,
 		orc: &oracle{items: map[string]*item{}, prev: map[string]roleSummary{}}}
@@ -845,6 +871,7 @@ type caseParams struct {
 	PDeliver float64 `json:"p_deliver_after_kernel_step"`
 	PEquiv   float64 `json:"p_equivocation"`
 	Pre      int     `json:"kernel_steps_before_first_update"`
+	Power    int     `json:"power_profile"`
 }
 
 func drawParams(rng *rand.Rand) caseParams {
@@ -854,6 +881,7 @@ func drawParams(rng *rand.Rand) caseParams {
 		PDeliver: []float64{1, 1, 0.75, 0.5}[rng.IntN(4)],
 		PEquiv:   []float64{0, 0.15, 0.4}[rng.IntN(3)],
 		Pre:      rng.IntN(6),
+		Power:    []int{0, 0, 1, 1, 2}[rng.IntN(5)],
 	}
 }
 
@@ -882,9 +910,10 @@ func randomScript(rng *rand.Rand, p caseParams) func(*sim) {
 
 // directed scripts: the smallest histories for the behaviours the property names.
 type directed struct {
-	name string
-	n    int
-	run  func(*sim)
+	name    string
+	n       int
+	run     func(*sim)
+	profile int
 }
 
 var directedCases = []directed{
@@ -895,14 +924,14 @@ var directedCases = []directed{
 		s.deliver()
 		s.addVotes(kindPrevote, roleVoting, b, []int{0})
 		s.deliver()
-	}},
+	}, 0},
 	{"directed-equivocating-precommit-same-signer-count", 4, func(s *sim) {
 		a := string(s.addPH(roleVoting, 0))
 		s.addVotes(kindPrecommit, roleVoting, a, []int{1})
 		s.deliver()
 		s.addVotes(kindPrecommit, roleVoting, "", []int{1})
 		s.deliver()
-	}},
+	}, 0},
 	{"directed-nil-committed-round-final-precommits", 4, func(s *sim) {
 		s.addPH(roleVoting, 0)
 		s.addVotes(kindPrevote, roleVoting, "", []int{0, 1, 2})
@@ -910,13 +939,13 @@ var directedCases = []directed{
 		s.deliver()
 		s.addVotes(kindPrecommit, roleVoting, "", []int{2}) // > 2/3 nil: round advances
 		s.deliver()
-	}},
+	}, 0},
 	{"directed-nil-committed-round-before-first-update", 4, func(s *sim) {
 		// the round dies before the strategy has read anything: the kernel's
 		// first output then carries Voting (1,1) and NilVotedRound (1,0).
 		s.addVotes(kindPrecommit, roleVoting, "", []int{0, 1, 2})
 		s.deliver()
-	}},
+	}, 0},
 	{"directed-two-nil-committed-rounds-while-strategy-busy", 4, func(s *sim) {
 		// rounds 0 and 1 both nil-commit between two reads of the strategy: the
 		// first update after that carries the views and NilVotedRound (1,0), the
@@ -927,7 +956,7 @@ var directedCases = []directed{
 		s.addVotes(kindPrecommit, roleVoting, "", []int{1, 2, 3}) // round 1 dies
 		s.deliver()
 		s.deliver()
-	}},
+	}, 0},
 	{"directed-three-nil-committed-rounds-queue-drained-one-per-update", 4, func(s *sim) {
 		s.deliver()
 		s.addVotes(kindPrecommit, roleVoting, "", []int{0, 1, 2})
@@ -937,7 +966,20 @@ var directedCases = []directed{
 		s.deliver()                                       // NilVotedRound (1,1) only, no session changes
 		s.addVotes(kindPrevote, roleVoting, "", []int{1}) // a kernel step slips in
 		s.deliver()                                       // voting view + NilVotedRound (1,2)
-	}},
+	}, 0},
+	{"directed-queued-nil-voted-round-with-the-signer-counts-of-the-newer-voting-view", 4, func(s *sim) {
+		// validators 0 and 1 hold more than 2/3: they nil-commit rounds 0 and 1 back to back
+		// while the strategy is busy; in round 2 the two light validators precommit nil
+		// first. The update after that carries the views and NilVotedRound (1,0); the next
+		// one only NilVotedRound (1,1), whose precommit map has the same target and as
+		// many signers as the voting view (1,2) handed over before it.
+		s.deliver()
+		s.addVotes(kindPrecommit, roleVoting, "", []int{0, 1})
+		s.addVotes(kindPrecommit, roleVoting, "", []int{0, 1})
+		s.addVotes(kindPrecommit, roleVoting, "", []int{2, 3})
+		s.deliver()
+		s.deliver()
+	}, 1},
 	{"directed-nil-voted-round-only-with-session-changes", 4, func(s *sim) {
 		s.deliver()
 		s.addVotes(kindPrecommit, roleVoting, "", []int{0, 1, 2})
@@ -946,7 +988,7 @@ var directedCases = []directed{
 		s.deliver() // views + NilVotedRound (1,0)
 		s.deliver() // NilVotedRound (1,1) only
 		s.deliver() // NilVotedRound (1,2) only, with RoundSessionChanges
-	}},
+	}, 0},
 	{"directed-commit-then-late-precommit", 4, func(s *sim) {
 		a := string(s.addPH(roleVoting, 0))
 		s.addVotes(kindPrevote, roleVoting, a, []int{0, 1, 2})
@@ -956,7 +998,7 @@ var directedCases = []directed{
 		s.addVotes(kindPrecommit, roleCommitting, a, []int{3})
 		s.addPH(roleVoting, 1)
 		s.deliver()
-	}},
+	}, 0},
 	{"directed-next-round-content-then-jump", 4, func(s *sim) {
 		s.addPH(roleVoting, 0)
 		s.deliver()
@@ -966,7 +1008,7 @@ var directedCases = []directed{
 		s.addVotes(kindPrevote, roleNext, b, []int{2}) // minority reached: jump to round 1
 		s.addPH(roleNext, 2)                           // new next round (1,2) gets a header before the strategy reads
 		s.deliver()
-	}},
+	}, 0},
 }
 
 // ---------------------------------------------------------------------------
@@ -1005,7 +1047,7 @@ func outSummary(msgs []outMsg) []map[string]any {
 	return out
 }
 
-func runCase(r *verifkit.Run, caseID string, n int, params any, script func(*sim)) caseOut {
+func runCase(r *verifkit.Run, caseID string, n int, profile int, params any, script func(*sim)) caseOut {
 	var co caseOut
 	r.BeginCase(caseID)
 	ctx, cancel := context.WithCancel(context.Background())
@@ -1020,7 +1062,7 @@ func runCase(r *verifkit.Run, caseID string, n int, params any, script func(*sim
 	stratEnd := make(chan struct{})
 	go func() { strat.Wait(); close(stratEnd) }()
 
-	s := newSim(ctx, n, in, stratEnd)
+	s := newSim(ctx, n, profile, in, stratEnd)
 	script(s)
 	ok := s.failure == "" && s.finish()
 
@@ -1236,12 +1278,12 @@ func TestVerif_C17(t *testing.T) {
 	// The directed histories run first and one after the other, so that the
 	// witness kept for a key is the minimal history whenever there is one.
 	for i, d := range directedCases {
-		account(runCase(r, d.name, d.n, map[string]any{"directed": d.name}, d.run), i < 2)
+		account(runCase(r, d.name, d.n, d.profile, map[string]any{"directed": d.name, "power_profile": d.profile}, d.run), i < 2)
 	}
 	r.Parallel(nRandom, func(ci int) {
 		rng := r.CaseRNG(ci)
 		p := drawParams(rng)
-		account(runCase(r, fmt.Sprintf("random-%d", ci), p.N, p, randomScript(rng, p)), ci < 2)
+		account(runCase(r, fmt.Sprintf("random-%d", ci), p.N, p.Power, p, randomScript(rng, p)), ci < 2)
 	})
 	for _, k := range verifkit.SortedKeys(agg) {
 		r.Count(k, agg[k])
